@@ -92,6 +92,9 @@ ALIASES = {
     "collections.abc.Set": "Set",
 }
 
+CONSTANTS = {"logging.DEBUG": 10, "logging.INFO": 20, "logging.WARNING": 30, "logging.ERROR": 40,
+             "logging.CRITICAL": 50}
+
 IGNORED_TYPING = {
     "typing.cast", "typing.final", "typing.overload", "typing.Any", "typing.Self", "typing.Final",
     "typing.TypeGuard", "typing.ClassVar", "typing.Generic", "typing.TypeVar", "typing.Protocol",
@@ -106,6 +109,8 @@ IGNORED_TYPING = {
 def resolve(it, dotted: str) -> z3.ExprRef:
     """Value standing for a library name."""
     from .interp import LibV
+    if dotted in CONSTANTS:
+        return it.mk_int(CONSTANTS[dotted])
     if dotted in ALIASES:
         return it.mk_cls(ALIASES[dotted])
     short = dotted.split(".")[-1]
@@ -155,6 +160,8 @@ def lib_attr(it, obj, name: str, node=None) -> z3.ExprRef:
         cname = it.ct.name(c)
         if it.ct.is_sub(c, it.ct.id("BaseException")) and name in ("args", "__cause__", "__traceback__", "exceptions"):
             return st.get(obj, name)
+        if name in DATA_ATTRS.get(cname, ()):
+            return st.get(obj, name)
         # find the most specific class that has a spec for this method
         for anc in _mro_names(it.ct, c):
             if f"{anc}.{name}" in LIB:
@@ -183,6 +190,9 @@ def lib_attr(it, obj, name: str, node=None) -> z3.ExprRef:
     if cname is not None and f"{cname}.{name}" in LIB:
         return st.reg_fun(LibV(f"{cname}.{name}", obj))
     return it.engine.unknown_attr(it, obj, name, node)
+
+
+DATA_ATTRS = {"object": {"hex"}, "Logger": {"name"}}
 
 
 def _mro_names(ct: V.ClassTable, c: int) -> list[str]:
@@ -1604,3 +1614,58 @@ def _task_cancelling(it, lv, ca, node):
 @spec("asyncio.get_event_loop.create_task")
 def _unused(it, lv, ca, node):
     raise Unsupported("unused")
+
+
+# ------------------------------------------------------------------------------------------------
+# uuid / logging (T-LOG)
+# ------------------------------------------------------------------------------------------------
+@spec("uuid.uuid4")
+def _uuid4(it, lv, ca, node):
+    o = it.st.alloc("object")
+    n = it.st.counters.get("uuid", 0)
+    it.st.counters["uuid"] = n + 1
+    h = V.VStr(it.st.fresh("uuid_hex", I))
+    it.st.put(o, "hex", h)
+    it.st.assume(str_len(V.sid(h)) == 32)
+    it.st.ghost.setdefault("$uuids", []).append(h)
+    return o
+
+
+@spec("logging.getLogger")
+def _get_logger(it, lv, ca, node):
+    used("T-LOG")
+    st = it.st
+    name = ca.arg(0, "name")
+    key = "root" if name is None else str(st.simp(name))
+    cache = st.ghost.setdefault("$loggers", {})
+    if key not in cache:
+        lg = st.sym_ref("logger", "Logger")
+        st.put(lg, "name", name if name is not None else it.mk_str("root"))
+        cache[key] = lg
+    return cache[key]
+
+
+@spec("Logger.log")
+def _logger_log(it, lv, ca, node):
+    """T-LOG: Logger.log never raises; the record goes to this logger at the given level."""
+    used("T-LOG")
+    it.st.events.append(("log", lv.bound, ca))
+    return V.VNone
+
+
+str_replace = z3.Function("str_replace", I, I, I, I)
+
+
+@spec("str.replace")
+def _str_replace(it, lv, ca, node):
+    return V.VStr(str_replace(V.sid(lv.bound), V.sid(ca.pos[0]), V.sid(ca.pos[1])))
+
+
+@spec("copy.copy")
+def _copy_copy(it, lv, ca, node):
+    used("T-COPY:copy.copy(dict) is a new dict with the same items")
+    v = ca.pos[0]
+    cn = _cname(it, v)
+    if cn in ("dict", "OrderedDict"):
+        return dict_of(it, v)
+    raise Unsupported("copy.copy of a non-dict value")
